@@ -160,14 +160,14 @@ func runStatsPlan(p *statsPlan, dir string) (out statsOutcome) {
 	defer svc.Stop(T + 30*time.Second)
 
 	x := &exec{p: &plan{Seed: p.Seed, ServerProto: p.ServerProto, BatchMode: p.BatchMode}, w: w, spec: spec, labels: map[string]bool{}, gLabels: map[string]int{}}
-	var clients []*udpsvc.Client
+	var clients []*hclient
 	for i := range p.Sessions {
 		codec, err := udpsvc.NewClientCodec(p.ServerProto, spec.ServerKeys, spec.ServerAddr, false)
 		if err != nil {
 			out.setupErr = err
 			return
 		}
-		c, err := udpsvc.NewClient(w, uint16(i), codec, spec.ServerAddr)
+		c, err := newHClient(w, uint16(i), codec, spec.ServerAddr)
 		if err != nil {
 			out.setupErr = err
 			return
